@@ -128,6 +128,17 @@ class ExprTx:
                     return f'(pow {self.tx(e.args[0])} {self.tx(e.args[1])})'
                 if name in NP_UNARY and len(e.args) == 1:
                     return f'({NP_UNARY[name]} {self.tx(e.args[0])})'
+                # explicit ufunc spellings of the operators (`np.subtract(x, 1)` for `x - 1`, …)
+                binop = {'add': '+', 'subtract': '-', 'multiply': '*', 'divide': '/', 'true_divide': '/'}
+                if name in binop and len(e.args) == 2:
+                    return f'({self.tx(e.args[0])} {binop[name]} {self.tx(e.args[1])})'
+                if name == 'negative' and len(e.args) == 1:
+                    return f'(-{self.tx(e.args[0])})'
+                if name == 'square' and len(e.args) == 1:
+                    a = self.tx(e.args[0])
+                    return f'(pow {a} {lean_num(2)})'
+                if name == 'reciprocal' and len(e.args) == 1:
+                    return f'({lean_num(1)} / {self.tx(e.args[0])})'
                 self.fail(e, f'numpy call np.{name}')
             if mod == 'self':
                 if name in self.calls:
